@@ -19,15 +19,15 @@ import (
 // C11Case: one (possibly unacceptable) request, followed by a normal request
 // for the same subscriber.
 type C11Case struct {
-	Route   string   `json:"route"`             // create | update | release | recharge
-	Supi    string   `json:"supi,omitempty"`    // SUPI shape in the body: "" valid; nodash|nai|gci|gli|short|slash|dotdot|long|empty|imsi-only
-	Ref     string   `json:"ref,omitempty"`     // path parameter shape: "" the real one; unknown|slashy|long|percent
-	Drop    []string `json:"drop,omitempty"`    // JSON member paths deleted
-	Null    []string `json:"null,omitempty"`    // JSON member paths set to null
-	Mcc     string   `json:"mcc"`               // nFPLMNID digits
+	Route   string   `json:"route"`          // create | update | release | recharge
+	Supi    string   `json:"supi,omitempty"` // SUPI shape in the body: "" valid; nodash|nai|gci|gli|short|slash|dotdot|long|empty|imsi-only
+	Ref     string   `json:"ref,omitempty"`  // path parameter shape: "" the real one; unknown|slashy|long|percent
+	Drop    []string `json:"drop,omitempty"` // JSON member paths deleted
+	Null    []string `json:"null,omitempty"` // JSON member paths set to null
+	Mcc     string   `json:"mcc"`            // nFPLMNID digits
 	Mnc     string   `json:"mnc"`
-	PDU     bool     `json:"pdu,omitempty"`     // carry pDUSessionChargingInformation
-	Reg     bool     `json:"reg,omitempty"`     // carry registrationChargingInformation
+	PDU     bool     `json:"pdu,omitempty"` // carry pDUSessionChargingInformation
+	Reg     bool     `json:"reg,omitempty"` // carry registrationChargingInformation
 	Trig    string   `json:"trig,omitempty"`
 	Q       string   `json:"q"`                 // quota management indicator of the container
 	OneTime bool     `json:"oneTime,omitempty"` // oneTimeEvent create
